@@ -203,6 +203,23 @@ fn builtin_cases(out: &mut Vec<Case>) {
             }
         }
     }
+    // two lists of every pair of lengths (each a prefix of the other): ==, !=, contains /
+    // index with present and absent needles, concat, iteration; flat and nested
+    for (ety, mk) in [("u64", "c"), ("String", "f\"s{c}\""), ("u8", "in_u8(3)"), ("Trk", "mk(1)")] {
+        let src = format!(
+            "fn main() {{\n    let a: List[{ety}] = [];\n    let b: List[{ety}] = [];\n    let n = in_u64(0);\n    let m = in_u64(1);\n    let c = 0u64;\n    while c < n {{ a.push({mk}); c = c + 1; }}\n    c = 0;\n    while c < m {{ b.push({mk}); c = c + 1; }}\n    out_bool(a == b);\n    out_bool(a != b);\n    out_bool(b == a);\n    out_bool(a == a);\n    let aa = [a, b];\n    let bb = [b, a];\n    out_bool(aa == bb);\n    out_bool(aa != [a]);\n    out_bool(aa.contains(a));\n    out_bool(aa.contains(b));\n    out_bool([b].contains(a));\n    match [b, b].index(a) {{ Some(i) => out_u64(i), None => out_unit() }}\n    match aa.index(b) {{ Some(i) => out_u64(i), None => out_unit() }}\n    out_u64(a.concat(b).len());\n    out_u64((b + a).len());\n    let k = 0u64;\n    for x in a {{ if b.contains(x) {{ k = k + 1; }} }}\n    out_u64(k);\n    match b.index({mk}) {{ Some(i) => out_u64(i), None => out_unit() }}\n}}\n"
+        );
+        for n in [0u64, 1, 2, 3, 4, 5, 8, 9] {
+            for m in [0u64, 1, 2, 3, 4, 5, 8, 9] {
+                push(
+                    &format!("List[{ety}] pair len={n} len={m} ==/contains/index/concat"),
+                    &format!("builtin/List[{ety}]/pair"),
+                    src.clone(),
+                    vec![n, m, 0, 7],
+                );
+            }
+        }
+    }
     // prefixes: every length 0..=255 for both families, through Prefix.new and `/`
     for (fam, addr) in [("v4", "1.2.3.4"), ("v6", "2001:db8::1")] {
         let src_new = format!("fn main() {{\n    let p = Prefix.new({addr}, in_u8(0));\n    out_u8(p.len());\n}}\n");
